@@ -36,6 +36,7 @@ func main() {
 	tier := flag.String("tier", "quick", "quick|thorough")
 	repo := flag.String("repo", "/repo", "repository root")
 	verif := flag.String("verif", "/verif", "verif root")
+	outdir := flag.String("outdir", "", "where evidence/ and reports/ are written (default: the verif root)")
 	dump := flag.String("dumpkinds", "", "debug: dump inferred kinds of functions whose name contains this")
 	flag.Parse()
 	if *dump != "" {
@@ -101,6 +102,9 @@ func main() {
 		r.Analysed["source_files"] = w.Files
 		r.Analysed["module_functions"] = len(w.ModFuncs)
 		ps.Run(w, r, *tier)
+		if *tier == "thorough" && *outdir == "" {
+			thoroughExtras(w, r, id, *verif, *repo)
+		}
 		skipped := ""
 		if !w.CanaryOK {
 			skipped = w.CanaryWhy
@@ -108,7 +112,11 @@ func main() {
 				skipped = "no canary files found"
 			}
 		}
-		c := r.Finish(*verif, ps.Level, floors, known, ps.Canary, skipped, ps.Explain, append(append([]string{}, baseTrusted...), ps.Trusted...))
+		od := *outdir
+		if od == "" {
+			od = *verif
+		}
+		c := r.Finish(od, ps.Level, floors, known, ps.Canary, skipped, ps.Explain, append(append([]string{}, baseTrusted...), ps.Trusted...))
 		if c > code {
 			code = c
 		}
